@@ -81,7 +81,9 @@ def scalars(draw, dt, batch, positive=False):
     if kind == "zero":
         return {"kind": kind, "v": 0.0}
     lo = 1 if positive else -16
-    vals = gen.grid(draw, tuple(batch) + (1, 1), lo, 16)
+    # a `... x 1 x 1` batch of constants: the full batch shape, or singletons in some (also non-leading) batch positions
+    bshape = tuple(b if draw(st.integers(0, 2)) else 1 for b in batch)
+    vals = gen.grid(draw, bshape + (1, 1), lo, 16)
     return {"kind": "batched", "t": L.lit(vals, dt)}
 
 
@@ -501,6 +503,7 @@ def _any_batched(case):
 
 DIAGISH = {"Diag", "ConstantDiag", "Identity", "KroneckerDiag"}
 
+BATCHED_CONST_BAD = {"Tri", "ConstantDiag", "Identity", "BlockInterleaved", "BlockDiag", "SumBatch", "AddedDiag", "Mul", "LowRankRootAddedDiag", "Chol", "Zero"}
 GETITEM_OPEN = {"Kernel", "Matmul", "BatchRepeat", "BlockDiag", "BlockInterleaved", "Cat", "TransposePermutation"}
 
 def _squeeze_step(c):
@@ -514,17 +517,20 @@ def _squeeze_step(c):
 
 
 TRIGGERS = {
-    "scalar_batched": lambda c: any(s.get("s", {}).get("kind") == "batched" and s["k"] in ("mul_scalar", "rmul_scalar", "div_scalar") for s in c["steps"][:1]),
+    # (class-specific _mul_constant / constructor defects; the base-class dispatch and the other classes ARE checked)
+    "scalar_batched": lambda c: any(s.get("s", {}).get("kind") == "batched" and s["k"] in ("mul_scalar", "rmul_scalar", "div_scalar") for s in c["steps"]) and bool(BATCHED_CONST_BAD & _all_classes(c)),
     "interp_matmul_operator": lambda c: _first(c) == "matmul" and _heads(c)[0] == "Interpolated",
     "mul_with_identity": lambda c: _first(c) == "mul" and "Identity" in _heads(c),
     "repeat_step": lambda c: "repeat" in _kinds(c) and (_nonsquare0(c) or _first(c) in ("matmul", "cat")),
     # squeeze() is __getitem__ with an int batch index: it inherits the open C03 __getitem__ defects of these classes
     # (BatchRepeat also arises from an earlier repeat / expand step)
     "squeeze_step": _squeeze_step,
-    "sum_step": lambda c: "sum" in _kinds(c) and (bool({"Interpolated", "KroneckerDiag", "KroneckerAddedDiag"} & _all_classes(c)) or (_first(c) in ("add", "sub", "radd_tensor", "rsub_tensor") and bool(DIAGISH & set(_heads(c))))),
+    "sum_step": lambda c: "sum" in _kinds(c) and (bool({"Interpolated", "KroneckerAddedDiag"} & _all_classes(c)) or (_first(c) in ("add", "sub", "radd_tensor", "rsub_tensor") and bool(DIAGISH & set(_heads(c))))),
     # TransposePermutation cannot carry a batch shape: any program in which a batch dimension meets one
     "expand_transpose_permutation": lambda c: "TransposePermutation" in _all_classes(c) and (bool({"expand", "repeat", "unsqueeze"} & set(_kinds(c))) or _any_batched(c)),
     "cat_transpose_permutation": lambda c: "cat" in _kinds(c) and "TransposePermutation" in _all_classes(c),
+    # `x + <root-form>` is routed through add_low_rank on the NON-DIAGONAL part of these classes, which need not be invertible
+    "add_rootform_to_added_diag": lambda c: _first(c) in ("add", "sub") and len(_heads(c)) > 1 and _heads(c)[1] in ROOTFORM and _heads(c)[0] in ("AddedDiag", "KroneckerAddedDiag", "LowRankRootAddedDiag"),
     "zero_add_diagonal": lambda c: bool({"add_diagonal", "add_jitter"} & set(_kinds(c))) and "Zero" in _all_classes(c),
 }
 
